@@ -5,7 +5,7 @@
    labels: which thread moves, which ready select case is taken, when the context
    ends); [run] skips labels that are not enabled. *)
 From Coq Require Import List ZArith Bool Arith Permutation.
-From GZ Require Import C10.Model C10.AtomicErr C10.Proofs C10.ProofsT C10.ProofsQ C10.ProofsM C10.ProofsS C10.ProofsC C10.ProofsP C10.ProofsL C10.ProofsA.
+From GZ Require Import C10.Model C10.AtomicErr C10.Proofs C10.ProofsT C10.ProofsQ C10.ProofsM C10.ProofsS C10.ProofsC C10.ProofsP C10.ProofsL C10.ProofsA C10.ProofsV.
 Import ListNotations.
 
 (* At most [workers] mapper functions run at any time (and the pool never holds more
@@ -523,3 +523,41 @@ Example normal_commit_example :
   /\ (exists s', step c s (LMain BOut) = Some s' /\ mainpc s' = MDefer ONoOutput)
   /\ g_cancels s = [].
 Proof. vm_compute. split; [reflexivity | split; [eexists; split; reflexivity | reflexivity]]. Qed.
+
+(* ---- MapReduceVoid / Finish: the adapter around the user's void reducer ---- *)
+(* A Void call is a call whose reducer script contains no Write (the adapter hands the user's reducer
+   no writer and writes nothing itself), post-processed by [void_post].  The reducer's return is an
+   action of its own and decides nothing:
+   (1) whatever the schedule, the call never returns a value; an error is the context error after
+       the context ended or one passed to a cancel call;
+   (2) when the caller's select takes its output branch, the output is CLOSED, and the outcome is
+       either ErrReduceNoOutput with nothing cancelled so far - mapped to nil - or the error stored
+       by a cancel call: the cancel error or nil.
+   Pinned.seed_c10_11_placeholder_write_loses_cancel refutes the adapter of seeded change C10-11. *)
+Theorem void_result_is_cancel_error_or_nil : forall c sched,
+  void_cfg c ->
+  let s := run c (init c) sched in
+  (forall o, result s = Some o ->
+     (forall v, o <> OVal v) /\ o <> OUnit
+     /\ (forall e, o = OErr e -> (e = ECtx /\ ctx_done s = true) \/ In e (g_cancels s)))
+  /\ (forall b s' o, mainpc s = MSelect -> step c s (LMain b) = Some s' -> mainpc s' = MDefer o ->
+       finished s = true
+       /\ ((o = ONoOutput /\ g_cancels s = [] /\ reterr s = None /\ void_post false o = OUnit)
+           \/ (exists e, o = OErr e /\ reterr s = Some e /\ In e (g_cancels s) /\ forall f, void_post f o = OErr e))).
+Proof.
+  intros c sched V s. split.
+  - intros o. exact (void_result_final_l c sched o V).
+  - intros b s' o. exact (void_commit_l c sched b s' o V).
+Qed.
+Print Assumptions void_result_is_cancel_error_or_nil.
+
+Theorem void_reducer_never_writes : forall c sched y r,
+  void_cfg c -> redpc (run c (init c) sched) <> SendPend y r.
+Proof. exact ProofsV.void_reducer_never_writes. Qed.
+Print Assumptions void_reducer_never_writes.
+
+(* non-vacuity: a Void call whose reducer returns after one receive, a mapper cancelling later *)
+Example void_cfg_example :
+  void_cfg (mkCfg VFixed false 2%nat [USend 1%Z; USend 2%Z]
+                  (fun x => if Z.eqb x 1 then [UWrite 10%Z] else [UCancel (Some 5%Z)]) [URecv] false).
+Proof. split; reflexivity. Qed.
